@@ -8,7 +8,8 @@ captured); ``signonetime`` main() with 1..4 images, twice with two different ran
 streams.  Oracle: hashlib SHA-256 over the generator's own area bytes in address order; own
 strict DER parser and libsecp256k1 (plus the ecdsa package as second opinion) verification of
 every signature file under the key in the public-key file; key freshness; key-leak scan of
-every file written and of stdout.
+every file written and of stdout; nonce-reuse recovery of the private key from the signature
+files (positive oracle).
 """
 import itertools
 import os
@@ -23,6 +24,13 @@ from .. import opstub
 SUB4 = [1, 16, 17, 300]
 SUB3 = [1, 17, 300]
 PLACEMENTS = ["low", "cross", "gap", "end"]
+
+
+# area lengths at the edges of the block sizes of this code base and its libraries: SHA-256
+# block (64) and padding edges (55/56), 32, 128, ledgerblue's load chunk (224), 255/256 record and
+# APDU limits, 448, 512, 1024, 4096: k * block for k = 1..3, each -1 / +0 / +1
+BLOCKS = [32, 55, 56, 64, 128, 224, 255, 256, 448, 512, 1024, 4096]
+BLOCK_LENGTHS = sorted({b * k + d for b in BLOCKS for k in (1, 2, 3) for d in (-1, 0, 1)})
 
 
 def order_kind(order):
@@ -51,7 +59,10 @@ class C19(Check):
             "ending at the border}; each written with record lengths {1,2,16,32,255,mixed} and area "
             "emission orders (quick: every length with address order + every order with 16-byte "
             "records + reversed/mixed; thorough: the full product for n <= 3, all 24 orders for n = 4, "
-            "rule-built orders for n = 5); format variants (CRLF, lower case, redundant upper-address "
+            "rule-built orders for n = 5); single areas and pairs with lengths k*B-1, k*B, k*B+1 for "
+            "B in {32,55,56,64,128,224,255,256,448,512,1024,4096}, k = 1..3; a sweep of single-area "
+            "images of every length 1..600 (quick: every 7th and all multiples of 16) through "
+            "`signapp hash`; format variants (CRLF, lower case, redundant upper-address "
             "records, start-address record, records of an area in reverse, per-area lengths); each "
             "file through compute_app_hash, each layout through `signapp hash`; signonetime with "
             "1..4 images x 2 runs (file names with non-ASCII letters, blanks, no extension); `signapp "
@@ -89,7 +100,7 @@ class C19(Check):
             raise HarnessError("Intel-HEX writer self-test failed (EOF / ELA records)")
 
     def bounds(self):
-        return {"areas": "1..5" if self.thorough else "1..3", "lengths": ihex.LENGTHS,
+        return {"areas": "1..5" if self.thorough else "1..3", "lengths": ihex.LENGTHS, "block_edge_lengths": BLOCK_LENGTHS, "sweep": "1..600",
                 "gaps": ihex.GAPS, "record_lengths": [pol_name(p) for p in ihex.POLICIES],
                 "placements": PLACEMENTS, "images_per_signing_run": "1..4", "runs": 2}
 
@@ -125,6 +136,10 @@ class C19(Check):
         cs.append({"kind": "variants"})
         for new in range(8):
             cs.append({"kind": "embed", "new": new})
+        for part in range(12):
+            cs.append({"kind": "blocks", "part": part})
+        for part in range(4):
+            cs.append({"kind": "sweep", "part": part})
         return cs
 
     def run_case_single(self, case, choices, stats):
@@ -145,6 +160,10 @@ class C19(Check):
                 self.case_variants(case, stats, vs)
             elif k == "embed":
                 self.case_embed(case, stats, vs)
+            elif k == "blocks":
+                self.case_blocks(case, stats, vs)
+            elif k == "sweep":
+                self.case_sweep(case, stats, vs)
         return vs
 
     def viol(self, vs, clause, detail, route, args, observed, expected):
@@ -253,6 +272,32 @@ class C19(Check):
                             a2["via"] = "main"
                             a2["verbose"] = ctr % 2 == 0
                             self.x_hash(a2, stats, vs)
+
+    def case_blocks(self, case, stats, vs):
+        """areas whose length sits at a block-size edge: alone, before and after a small area"""
+        for n, ln in enumerate(BLOCK_LENGTHS):
+            if n % 12 != case["part"]:
+                continue
+            for pl in ("low", "cross"):
+                for pol in (16, 255, 224 if ln % 2 else 32):
+                    self.x_hash(Args(ls=[ln], gs=[], pl=pl, policy=pol, order=[0], fmt={}, via="fn"),
+                                stats, vs)
+                self.x_hash(Args(ls=[ln], gs=[], pl=pl, policy=32, order=[0], fmt={}, via="main",
+                                 verbose=n % 2 == 0), stats, vs)
+            for ls, order in (([ln, 17], [0, 1]), ([ln, 17], [1, 0]), ([17, ln], [0, 1]), ([ln, ln], [1, 0])):
+                self.x_hash(Args(ls=ls, gs=[1], pl="low", policy=64, order=order, fmt={}, via="fn"),
+                            stats, vs)
+
+    def case_sweep(self, case, stats, vs):
+        """one single-area image per length, through `signapp hash` only"""
+        if self.thorough:
+            lengths = list(range(1, 601))
+        else:
+            lengths = sorted(set(range(1, 601, 7)) | set(range(16, 601, 16)))
+        for n, ln in enumerate(lengths):
+            if n % 4 == case["part"]:
+                self.x_hash(Args(ls=[ln], gs=[], pl="low", policy=32, order=[0], fmt={}, via="main"),
+                            stats, vs)
 
     def case_variants(self, case, stats, vs):
         fmts = [{"eol": "\r\n"}, {"lower": True}, {"redundant_zone": True}, {"start_record": True},
@@ -421,6 +466,7 @@ class C19(Check):
         app_arg = a.sep.join(td.file(n) for n in names)
         pkpath = td.file("pub.key")
         pubs, scalars = [], []
+        allsigs = []            # (run, file, r, s, z, public key) of every signature that verified
         args = dict(a)
         for run, label in enumerate(a.streams):
             stats.evaluations += 1
@@ -486,6 +532,8 @@ class C19(Check):
                         why = "does not verify (ecdsa package)"
                     else:
                         ok = True
+                        r_, s_ = ecsig.der_decode(der)
+                        allsigs.append((run, nm + ".sig", r_, s_, int.from_bytes(want, "big"), pub))
                         if ecsig.der_decode(der)[1] > ecsig.N // 2:
                             stats.dont_care += 1
                 except Exception as e:   # noqa
@@ -532,10 +580,57 @@ class C19(Check):
                     if form:
                         self.viol(vs, "key-leak", "onetime:%s" % form, "onetime", args,
                                   {"where": fname, "secret": form}, {"private_key": "written nowhere"})
+        # what the tool wrote must not GIVE the private key away either: signatures that share
+        # their nonce (equal r) let anybody compute it (positive oracle: the recovered scalar is
+        # checked against the public key; also across the two runs)
+        for leak in self.nonce_reuse(allsigs):
+            self.viol(vs, "key-leak", "onetime:recoverable-from-signatures", "onetime", args, leak,
+                      {"private_key": "not computable from the files written"})
+            break
         if len(pubs) == 2 and pubs[0] is not None and pubs[0] == pubs[1] and \
                 a.streams[0] != a.streams[1]:
             self.viol(vs, "fresh-key", "onetime:same-key-in-two-runs", "onetime", args,
                       {"run1": pubs[0].hex(), "run2": pubs[1].hex()}, {"keys": "differ"})
+
+    @staticmethod
+    def nonce_reuse(sigs):
+        """ECDSA: s = k^-1 (z + r d).  Two signatures with the same r were made with the same
+        nonce k (or its negative): from two of them under one key, k = (z1 - z2) / (s1 -+ s2) and
+        d = (s1 k - z1) / r; a k found that way also opens every other signature with that r."""
+        N = ecsig.N
+        inv = lambda x: pow(x % N, -1, N)      # noqa: E731
+        known_k = {}
+        out = []
+        by_r = {}
+        for sg in sigs:
+            by_r.setdefault(sg[2], []).append(sg)
+        for r, group in by_r.items():
+            if len(group) < 2:
+                continue
+            for i in range(len(group)):
+                for j in range(i + 1, len(group)):
+                    a, b = group[i], group[j]
+                    if a[5] != b[5] or a[4] == b[4]:
+                        continue
+                    for s2 in (b[3], N - b[3]):
+                        if (a[3] - s2) % N == 0:
+                            continue
+                        k = (a[4] - b[4]) * inv(a[3] - s2) % N
+                        d = (a[3] * k - a[4]) * inv(r) % N
+                        if 0 < d < N and ecsig.pub_of_libsecp(d.to_bytes(32, "big")) == a[5]:
+                            known_k[r] = k
+                            out.append({"files": [a[:2], b[:2]], "shared_r": "%064x" % r,
+                                        "recovered_private_key_matches_public_key": True})
+                            break
+            if r in known_k:
+                for sg in group:
+                    for k in (known_k[r], N - known_k[r]):
+                        d = (sg[3] * k - sg[4]) * inv(r) % N
+                        if 0 < d < N and ecsig.pub_of_libsecp(d.to_bytes(32, "big")) == sg[5] and \
+                                not any(sg[:2] in o["files"] for o in out):
+                            out.append({"files": [sg[:2]], "shared_r": "%064x" % r,
+                                        "recovered_private_key_matches_public_key": True})
+        return out
 
     @staticmethod
     def find_private_key(content, pub):
